@@ -27,6 +27,21 @@ theorem tl_roundtrip_1000 (S : Schema) (hwf : S.wf = true) (t : Ty) (v : Val) (e
     decTy S v.size 1000 t (e ++ rest) = .ok (v, rest) :=
   tl_roundtrip S hwf t v e rest v.size 1000 henc (Nat.le_refl _) hdepth
 
+/-- Corollary, for every well-formed schema and every type: `Encode` is injective and prefix-free —
+two accepted values whose encodings, each followed by arbitrary bytes, give the same stream are the
+same value with the same remainder (no two API objects share a wire form; a vector element can never
+be cut in two ways). -/
+theorem tl_encoding_unambiguous (S : Schema) (hwf : S.wf = true) (t : Ty) (v w : Val) (e f r₁ r₂ : Bytes)
+    (hv : encTy S t v = some e) (hw : encTy S t w = some f) (h : e ++ r₁ = f ++ r₂) :
+    v = w ∧ r₁ = r₂ := by
+  have h1 := tl_roundtrip S hwf t v e r₁ (max v.size w.size) (max v.depth w.depth) hv
+    (Nat.le_max_left _ _) (Nat.le_max_left _ _)
+  have h2 := tl_roundtrip S hwf t w f r₂ (max v.size w.size) (max v.depth w.depth) hw
+    (Nat.le_max_right _ _) (Nat.le_max_right _ _)
+  rw [h, h2] at h1
+  injection h1 with h1; injection h1 with a b
+  exact ⟨a.symm, b.symm⟩
+
 /-- The nesting limit is enforced for arbitrary bytes: a successful decode with budget `d` went
 through at most `d` nested boxed objects (calls of a generated `DecodeXxx`, the only recursion
 points of the generated code) — the recursion depth of the decoder is bounded by the budget,
